@@ -16,11 +16,12 @@ CONSTANTS Dir,          \* "push" | "pull"
           LimitsId,     \* names the sequence of data limits the responder's validator grants (0 = unlimited): "none" | "l2" | "l2_4" | "l3"
           ReqFin,       \* BOOLEAN responder requires finalization
           MaxPauses,    \* application pause/resume pairs allowed per side
+          MaxRestarts,  \* application-level restarts (RestartDataTransferChannel on either node) allowed
           MaxLen,       \* history bound
           DumpAtEnd     \* BOOLEAN: print the history when the run is over (simulation)
 
-VARIABLES ch, net, gs, todo, lim, pauses, h, done
-vars == <<ch, net, gs, todo, lim, pauses, h, done>>
+VARIABLES ch, net, gs, todo, lim, pauses, restarts, h, done
+vars == <<ch, net, gs, todo, lim, pauses, restarts, h, done>>
 
 Limits == CASE LimitsId = "l2" -> <<2, 0>> [] LimitsId = "l3" -> <<3, 0>> [] LimitsId = "l2_4" -> <<2, 4, 0>> [] OTHER -> << >>
 Pull == Dir = "pull"
@@ -49,7 +50,7 @@ Init ==
   /\ net = IF Pull THEN << >> ELSE << [to |-> "B", msg |-> NewReq] >>
   /\ gs = IF Pull THEN [NoGs EXCEPT !.st = "open", !.ext = NewReq, !.opens = 1] ELSE NoGs
   /\ todo = IF Pull THEN << [node |-> "A", kind |-> "OnChannelOpened", i |-> 0] >> ELSE << >>
-  /\ lim = 1 /\ pauses = [n \in {"A","B"} |-> 0] /\ h = << >> /\ done = FALSE
+  /\ lim = 1 /\ pauses = [n \in {"A","B"} |-> 0] /\ restarts = 0 /\ h = << >> /\ done = FALSE
 
 (* ---- one stimulus on node n: apply Mgr!Handle, route its outputs ---- *)
 StimOf(n, kind, from, msg, val, args) == [Stim0 EXCEPT !.kind = kind, !.c = "c1", !.from = from, !.msg = msg, !.val = val, !.args = args]
@@ -89,17 +90,18 @@ Live == ~done /\ Len(h) < MaxLen
 NetDeliver(i) ==
   /\ Live /\ i \in 1..Len(net)
   /\ LET m == net[i]
-         s == StimOf(m.to, IF m.msg.isReq THEN "RecvRequest" ELSE "RecvResponse", Other(m.to), m.msg, IF lim = 1 THEN Val0 ELSE ValAt(lim), ZeroArgs)
+         s == StimOf(m.to, IF m.msg.kind = "RestartExisting" THEN "RecvRestartExisting" ELSE IF m.msg.isReq THEN "RecvRequest" ELSE "RecvResponse",
+                     Other(m.to), m.msg, IF lim = 1 THEN Val0 ELSE ValAt(lim), ZeroArgs)
          rest == SubSeq(net, 1, i-1) \o SubSeq(net, i+1, Len(net))
      IN Do(m.to, s, gs, rest, todo)
-  /\ UNCHANGED <<lim, pauses, done>>
+  /\ UNCHANGED <<lim, pauses, restarts, done>>
 
 (* ---- follow-up callbacks the adapter makes on its own (OnChannelOpened after OpenChannel) ---- *)
 Todo ==
   /\ Live /\ todo # << >>
   /\ Head(todo).kind = "OnChannelOpened"
   /\ LET t == Head(todo) IN Do(t.node, StimOf(t.node, t.kind, Other(t.node), NoMsg, Val0, ZeroArgs), gs, net, Tail(todo))
-  /\ UNCHANGED <<lim, pauses, done>>
+  /\ UNCHANGED <<lim, pauses, restarts, done>>
 
 (* ---- graphsync: the request reaches the responder side ---- *)
 GsArrive ==
@@ -111,25 +113,25 @@ GsArrive ==
                           !.rsPaused = (r = "pause"),
                           !.st = IF r \in {"nil","pause"} THEN "open" ELSE "done"]
      IN Do(Rs, s, g1, net, todo)
-  /\ UNCHANGED <<lim, pauses, done>>
+  /\ UNCHANGED <<lim, pauses, restarts, done>>
 GsInitiated(n) ==      \* the transport reports that the request started processing (once per side and request)
   /\ Live /\ gs.st = "open" /\ gs.arrived /\ ch[n].has /\ n \notin gs.initd /\ todo = << >>
   /\ Do(n, StimOf(n, "OnTransferInitiated", Other(n), NoMsg, Val0, ZeroArgs), [gs EXCEPT !.initd = @ \cup {n}], net, todo)
-  /\ UNCHANGED <<lim, pauses, done>>
+  /\ UNCHANGED <<lim, pauses, restarts, done>>
 GsToRq ==
   /\ Live /\ gs.st \in {"open","done"} /\ gs.toRq # << >>
   /\ LET m == Head(gs.toRq)
          s == StimOf(Rq, IF m.isReq THEN "OnRequestReceived" ELSE "OnResponseReceived", Rs, m, ValAt(lim), ZeroArgs)
          g1 == [gs EXCEPT !.toRq = Tail(@), !.rqPaused = (@ \/ Ret(Rq, s) = "pause")]
      IN Do(Rq, s, g1, net, todo)
-  /\ UNCHANGED <<lim, pauses, done>>
+  /\ UNCHANGED <<lim, pauses, restarts, done>>
 GsToRs ==
   /\ Live /\ gs.st = "open" /\ gs.arrived /\ gs.toRs # << >>
   /\ LET m == Head(gs.toRs)
          s == StimOf(Rs, IF m.isReq THEN "OnRequestReceived" ELSE "OnResponseReceived", Rq, m, ValAt(lim), ZeroArgs)
          g1 == [gs EXCEPT !.toRs = Tail(@), !.rsPaused = (@ \/ Ret(Rs, s) = "pause")]
      IN Do(Rs, s, g1, net, todo)
-  /\ UNCHANGED <<lim, pauses, done>>
+  /\ UNCHANGED <<lim, pauses, restarts, done>>
 
 (* ---- one block: queued (+sent if on the wire) at the sender, received at the receiver; three history steps ---- *)
 BArgs(i) == [ZeroArgs EXCEPT !.delta = BSize(i), !.index = i, !.unique = Uniq(i)]
@@ -141,7 +143,7 @@ GsQueue ==
          r == Ret(Rs, s)  rep == Reply(Rs, s)
          g1 == [gs EXCEPT !.next = i + 1, !.rsPaused = (r = "pause"), !.toRq = IF rep.kind # "none" THEN Append(@, rep) ELSE @]
      IN Do(Rs, s, g1, net, << [node |-> Rs, kind |-> "OnDataSent", i |-> i], [node |-> Rq, kind |-> "OnDataReceived", i |-> i] >>)
-  /\ UNCHANGED <<lim, pauses, done>>
+  /\ UNCHANGED <<lim, pauses, restarts, done>>
 BlockTodo ==
   /\ Live /\ todo # << >> /\ Head(todo).kind \in {"OnDataSent","OnDataReceived"}
   /\ LET t == Head(todo)
@@ -150,7 +152,7 @@ BlockTodo ==
      IN (IF t.kind = "OnDataSent" /\ ~Uniq(t.i)
          THEN UNCHANGED <<ch, net, gs, h>> /\ todo' = Tail(todo)       \* nothing on the wire: no sent accounting
          ELSE Do(t.node, s, g1, net, Tail(todo)))
-  /\ UNCHANGED <<lim, pauses, done>>
+  /\ UNCHANGED <<lim, pauses, restarts, done>>
 
 (* ---- completion is reported to both sides, in either order ---- *)
 GsComplete(n) ==
@@ -158,7 +160,7 @@ GsComplete(n) ==
   /\ (IF n = Rq THEN ~gs.doneRq ELSE ~gs.doneRs)
   /\ LET g1 == IF n = Rq THEN [gs EXCEPT !.doneRq = TRUE] ELSE [gs EXCEPT !.doneRs = TRUE] IN
        Do(n, StimOf(n, "OnChannelCompleted", Other(n), NoMsg, Val0, ZeroArgs), g1, net, todo)
-  /\ UNCHANGED <<lim, pauses, done>>
+  /\ UNCHANGED <<lim, pauses, restarts, done>>
 
 (* ---- the responder's application: re-validates when paused by a limit, releases finalization ---- *)
 AppValidate ==
@@ -169,22 +171,31 @@ AppValidate ==
          v == IF fin THEN Res(TRUE, FALSE, "", FALSE, ch["B"].rec.limit, FALSE) ELSE ValAt(lim + 1)
      IN Do("B", StimOf("B", "UpdateValidation", "A", NoMsg, v, ZeroArgs), gs, net, todo)
         /\ lim' = IF fin THEN lim ELSE lim + 1
-  /\ UNCHANGED <<pauses, done>>
+  /\ UNCHANGED <<pauses, restarts, done>>
 AppPause(n) ==
   /\ Live /\ ch[n].has /\ pauses[n] < 2 * MaxPauses /\ todo = << >> /\ ch[n].rec.status \in PauseStates
   /\ Do(n, StimOf(n, IF pauses[n] % 2 = 0 THEN "Pause" ELSE "Resume", Other(n), NoMsg, Val0, ZeroArgs), gs, net, todo)
   /\ pauses' = [pauses EXCEPT ![n] = @ + 1]
-  /\ UNCHANGED <<lim, done>>
+  /\ UNCHANGED <<lim, restarts, done>>
+
+(* either application restarts the channel: the creator re-issues the request (push: Restart request on the network;  *)
+(* pull: a new graphsync request that skips the blocks already received), the receiver of the channel asks the       *)
+(* creator to do so (restart-existing message)                                                                        *)
+AppRestart(n) ==
+  /\ Live /\ ch[n].has /\ restarts < MaxRestarts /\ todo = << >> /\ ch[n].rec.status \notin Terminal
+  /\ Do(n, StimOf(n, "Restart", Other(n), NoMsg, ValAt(lim), ZeroArgs), gs, net, todo)
+  /\ restarts' = restarts + 1
+  /\ UNCHANGED <<lim, pauses, done>>
 
 Quiescent == net = << >> /\ todo = << >> /\ gs.toRq = << >> /\ gs.toRs = << >>
 Dump == /\ DumpAtEnd /\ ~done /\ (Len(h) = MaxLen \/ (Quiescent /\ ch["A"].rec.status \in Terminal /\ (~ch["B"].has \/ ch["B"].rec.status \in Terminal)))
         /\ PrintT(<<"@@case", ToJson([dir |-> Dir, nblocks |-> NBlocks, uniqueBytes |-> UniqueBytes, steps |-> h,
                                        expA |-> ch["A"].rec, expB |-> ch["B"].rec, hasB |-> ch["B"].has])>>)
-        /\ done' = TRUE /\ UNCHANGED <<ch, net, gs, todo, lim, pauses, h>>
+        /\ done' = TRUE /\ UNCHANGED <<ch, net, gs, todo, lim, pauses, restarts, h>>
 
 Next == \/ \E i \in 1..Len(net) : NetDeliver(i)
         \/ Todo \/ GsArrive \/ GsToRq \/ GsToRs \/ GsQueue \/ BlockTodo
-        \/ \E n \in {"A","B"} : GsInitiated(n) \/ GsComplete(n) \/ AppPause(n)
+        \/ \E n \in {"A","B"} : GsInitiated(n) \/ GsComplete(n) \/ AppPause(n) \/ AppRestart(n)
         \/ AppValidate \/ Dump
 Spec == Init /\ [][Next]_vars
 
@@ -196,12 +207,12 @@ C01_Delivered == (ch["A"].rec.status = "Completed" /\ Accepted) =>
                    /\ ch["B"].has /\ ch["B"].rec.status \in {"Completing","Completed"} /\ SentFinal
                    /\ RecvdAll
                    /\ ch[Rq].rec.received = UniqueBytes /\ ch[Rs].rec.queued = UniqueBytes
-C03_OnlyBoth == (ch["A"].rec.status \in {"Completing","Completed"} /\ Accepted) =>
-                   /\ \E k \in 1..Len(h) : h[k].node = "A" /\ h[k].stim.kind = "OnChannelCompleted"
-                   /\ \E k \in 1..Len(h) : h[k].node = "A" /\ h[k].stim.msg.kind = "Complete" /\ ~h[k].stim.msg.paused
+SawFinishA == \E k \in 1..Len(h) : h[k].node = "A" /\ h[k].stim.kind = "OnChannelCompleted"
+SawFinalA == \E k \in 1..Len(h) : h[k].node = "A" /\ h[k].stim.msg.kind = "Complete" /\ ~h[k].stim.msg.paused
+C03_OnlyBoth == (ch["A"].rec.status \in {"Completing","Completed"} /\ Accepted) => (SawFinishA /\ SawFinalA)
 C08_NoProgressWhilePaused == (ch["B"].has /\ ch["B"].rec.rp /\ ch["B"].rec.status \in Transferring /\ (gs.rqPaused \/ gs.rsPaused)) => ~ENABLED GsQueue
 C11_CrossView == (Quiescent /\ ch["B"].has /\ ch["A"].rec.status \in PauseStates /\ ch["B"].rec.status \in PauseStates) =>
                    (ch["A"].rec.ip = ch["B"].rec.ip)
 Constr == Len(h) <= MaxLen
-View == <<ch, net, gs, todo, lim, pauses, done, Len(h), Accepted, RecvdAll, SentFinal>>
+View == <<ch, net, gs, todo, lim, pauses, restarts, done, Accepted, RecvdAll, SentFinal, SawFinishA, SawFinalA>>
 =============================================================================
